@@ -119,7 +119,9 @@ class Gen:
             choices += [(1.2, "if"), (p["loops"], "for"), (p["loops"] * 0.5, "while"), (p["errors"], "try"), (p["funcs"], "func"),
                         (p["comps"], "comp"), (p["alias"], "alias"), (p["calls"], "call"), (p["calls"] * 0.6 + p["alias"] * 0.2, "method")]
         if ctx["loop"]:
-            choices += [(p["exits"], "break"), (p["exits"], "continue")]
+            choices += [(p["exits"], "break"), (p["exits"], "continue"), (p["exits"] * 0.6, "tryexit")]
+        elif ctx["func"]:
+            choices += [(p["exits"] * 0.4, "tryexit")]
         if ctx["func"]:
             choices += [(p["exits"], "return")]
         choices += [(p["errors"] * (0.7 if ctx.get("intry") else 0.06), "raise")]
@@ -129,6 +131,13 @@ class Gen:
             return ["append(log, %s)" % self.intexpr(ctx)]
         if k == "method":
             return self.method(ctx)
+        if k == "tryexit":
+            # an exit inside the protected part of a block with a finally part (whose last statement has a value)
+            ex = r.choice((["break", "continue"] if ctx["loop"] else []) + (["return %s" % self.intexpr(ctx, 1)] if ctx["func"] else []))
+            guard = "if %s then %s" % (self.cond(ctx), ex) if r.random() < 0.7 else ex
+            fin = r.choice(["append(log, 300)", "append(log, 300); 7", "append(log, 300); [1, 2]"])
+            mid = " catch all append(log, 301)" if r.random() < 0.3 else ""
+            return ["do append(log, 299); %s; append(log, 298)%s finally %s end" % (guard, mid, fin), "append(log, 297)"]
         if k == "def":
             v = self.fresh("v")
             ctx["vars"][v] = "int"
@@ -325,7 +334,14 @@ class Gen:
             args = "%s = %s" % (params[0], i)
         else:
             args = ", ".join([i] * len(params))
-        call = "%s->m(%s)" % (o, args)
+        recv = o
+        if r.random() < 0.4:
+            # the receiver is an expression with an effect: it must be evaluated once per call
+            mk = self.fresh("mk")
+            out.append("def %s() do append(log, -7); %s end" % (mk, o))
+            recv = "%s()" % mk
+            self.features.add("method:effect-receiver")
+        call = "%s->m(%s)" % (recv, args)
         how = r.choice(["loop", "loop", "func", "comp"])
         if how == "loop":
             out.append("for %s in [1, 2, 3] do append(log, %s) end" % (i, call))
